@@ -6,7 +6,6 @@ import (
 	"os"
 	"os/exec"
 	"path/filepath"
-	"sort"
 	"strconv"
 	"strings"
 	"sync"
@@ -364,11 +363,8 @@ func histWorker(j job) {
 	}
 }
 
-var workerSeq int
-
 // runWorker starts a fresh process of this binary. It returns the exit code.
 func runWorker(j job) (int, string) {
-	workerSeq++
 	jobFile := filepath.Join(base(), "job.json")
 	b, _ := json.Marshal(j)
 	if err := os.WriteFile(jobFile, b, 0o644); err != nil {
@@ -682,13 +678,4 @@ func genSettings(rt *rapid.T) SCase {
 		c.Die = append(c.Die, d)
 	}
 	return c
-}
-
-func sortedKeys(m map[string]string) []string {
-	ks := make([]string, 0, len(m))
-	for k := range m {
-		ks = append(ks, k)
-	}
-	sort.Strings(ks)
-	return ks
 }
